@@ -137,16 +137,16 @@ def _proxy(base, sched, fields, owner):
 
 
 @contextlib.contextmanager
-def instrumented(sched, two_d=False):
+def instrumented(sched, two_d=False, extra=()):
     """yields the reporting fitter class; the helper classes are replaced while the context is open"""
     from pybaselines import Baseline, Baseline2D
     import pybaselines._algorithm_setup as S1
     import pybaselines.two_d._algorithm_setup as S2
     saved = [(S1, '_PolyHelper', S1._PolyHelper), (S2, '_PolyHelper2D', S2._PolyHelper2D)]
-    S1._PolyHelper = _proxy(S1._PolyHelper, sched, HELPER_FIELDS, 'poly')
-    S2._PolyHelper2D = _proxy(S2._PolyHelper2D, sched, HELPER_FIELDS, 'poly')
+    S1._PolyHelper = _proxy(S1._PolyHelper, sched, HELPER_FIELDS | set(extra), 'poly')
+    S2._PolyHelper2D = _proxy(S2._PolyHelper2D, sched, HELPER_FIELDS | set(extra), 'poly')
     try:
-        yield _proxy(Baseline2D if two_d else Baseline, sched, FITTER_FIELDS, 'self')
+        yield _proxy(Baseline2D if two_d else Baseline, sched, FITTER_FIELDS | set(extra), 'self')
     finally:
         for mod, nm, val in saved:
             setattr(mod, nm, val)
